@@ -128,6 +128,8 @@ def oracle(ctx, line, res):
             return v.unit
         if isinstance(v, Measurement):
             return v.measurand.unit
+        if isinstance(v, Level):
+            return v.unit.reference.unit     # the unit of the quantity the level denotes
         return None
     ux, uy = unit_of(a), unit_of(b)
     cls = classify(ux, uy) if ux is not None and uy is not None else None
